@@ -138,7 +138,19 @@ class Table:
         sc = peel(m["scrut"])
         self.arity = len(sc["elems"]) if sc.get("k") == "Tup" else 1
         self.scrut = sc
-        self.arms = m["arms"]
+        # a top-level or-pattern `(a, X) | (b, X) => body` is several arms sharing one body
+        self.arms = []
+        self.arm_index = []   # virtual arm -> index of the real arm
+        for ai, arm in enumerate(m["arms"]):
+            if arm["pat"]["k"] == "Or":
+                for alt in arm["pat"]["pats"]:
+                    va = dict(arm)
+                    va["pat"] = alt
+                    self.arms.append(va)
+                    self.arm_index.append(ai)
+            else:
+                self.arms.append(arm)
+                self.arm_index.append(ai)
         self.lits = [set() for _ in range(self.arity)]
         self.variants = [set() for _ in range(self.arity)]
         self.ok = True
@@ -188,7 +200,7 @@ class Table:
                     return None
                 if not g:
                     continue
-            return ai
+            return self.arm_index[ai]
         return -1
 
 
